@@ -53,11 +53,26 @@ CHECKS = {
             "For each multi-session workload every schedule within the preemption bound is executed; the acknowledged statements must admit a serial order (respecting session order) that reproduces every observed result and the final tables on the reference model; no session or task panics, no deadlock, shutdown and reopen succeed and agree.",
             "Bounded: 2 sessions (quick) / up to 3 (thorough), <= 2 statements each, preemption bound 2/3. The clause about free-running multi-threaded runs is NOT decided (gate interleavings on a current-thread runtime only).",
             "DESIGN.md §3 E4, §4 C10"),
+    "C13": ("E1-small-scope", "exploration",
+            "exhaustive small-scope enumeration of key-range predicates x table layouts, against rows computed from the known contents (and the unoptimised full scan)",
+            "Every combination of primary-key position, key type, block layout, row-set shape, bound kind, boundary constant, residual predicate and select list of the stated domain is executed with range pushdown; results must equal the rows computed independently from the inserted data.",
+            "Bounded: keys 0..61 with duplicates at 64-byte block boundaries, <= 2 row-sets + deletes, one 5000-row table for 2048-row batch boundaries; SQL level only (the storage-level scan API is reached through SQL).",
+            "DESIGN.md §4 C13"),
     "C15": ("E3-fault-enumerators", "fault_enumeration",
             "exhaustive single-fault injection at every (operator, output item, occurrence) position x {error, panic} of every statement shape",
             "For each statement shape and engine one fault-free run lists every position at which an operator hands an item (or end of stream) to its consumers; one fault is then injected at every position; the statement must return Err or the complete fault-free answer, and a failed DML must leave the tables unchanged (also after reopen).",
             "Bounded: 16 statement shapes, 2-3 engine configurations, 2300-row inputs (3 chunks), single faults; faults on the committing DML operator's own output are excluded (after the commit point).",
             "DESIGN.md §3 E3, §4 C15"),
+    "C16": ("E1-small-scope", "exploration",
+            "exhaustive small-scope enumeration: (a) runtime vs statically derived column types over the statement corpus, (b) INSERT sources x column types x constraints",
+            "(a) every corpus statement that executes: each returned chunk carries exactly the statically derived column kinds; (b) every combination of column type, nullability/primary-key constraint and insert source: the stored value has the declared type, is NULL only if nullable and equals the lossless conversion, or the INSERT failed.",
+            "Bounded: 8 column types, 9 literals + NULL/omitted/INSERT..SELECT sources; expected stored values asserted only where the conversion is unambiguous.",
+            "DESIGN.md §4 C16"),
+    "C17": ("E1-small-scope", "exploration",
+            "exhaustive small-scope enumeration of accepted statements x databases x engines x statistics, with a static well-formedness walk of every optimised plan and a guarded build/run",
+            "For every statement of the corpus that the binder accepts: the optimizer terminates without panic, the optimised plan satisfies the executor's structural requirements (walked statically on the real plan with the real schema analysis), its output types equal the bound plan's, and building and running it does not panic.",
+            "Bounded: qgen corpus + 42 extra forms, 6 (quick) / 60 (thorough) databases, 2 engines, 2-3 statistics assignments; planning time above 2.5 s is reported (egg's wall-clock limit is uncontrolled).",
+            "DESIGN.md §4 C17"),
     "C18": ("E3-fault-enumerators", "fault_enumeration",
             "exhaustive byte-level corruption enumeration (bit flips, overwrites, truncations at every offset of every column/index file) with query-sequence oracle",
             "Every single-byte corruption and every truncation of every data and index file of the victim table is applied to a copy of a closed database; the database is reopened and the query sequences are run; each query must fail or return exactly the original rows, repeated reads included, and the other table must stay readable.",
@@ -68,6 +83,11 @@ CHECKS = {
             "Every population history up to the depth bound, on every engine/layout of the configuration list, is executed on the real engine and every ORDER BY/LIMIT/OFFSET query of the small query space is judged by the relations the property states (permutation, sortedness, slice, count, membership). Complete within the stated bounds; nothing is sampled.",
             "Bounded: histories <= 3 (quick) / 4 (thorough) ops over 3 insert batches, 2 deletes, forced compaction; 2-column integer table; NULL-smallest ordering assumed; single session.",
             "DESIGN.md §4 C12"),
+    "C20": ("E1-small-scope", "exploration",
+            "exhaustive small-scope enumeration of column types x boundary cell values x CSV options x engines, round-trip oracle",
+            "Every table of the stated domain is exported with COPY TO and imported with COPY FROM under the same options; the two tables must be equal as multisets.",
+            "Bounded: 9 scalar types, 1-2 columns, boundary values (NULL, '', delimiter/quote/newline in strings, extremes), 5 option sets, one 1030-row table.",
+            "DESIGN.md §4 C20"),
 }
 NOT_YET = {}
 ALL = [f"C{i:02d}" for i in range(1, 21)]
